@@ -339,6 +339,8 @@ def run_case(case, ctx):
         if tuple(res.dims) != want_dims:
             bad("data_swapped_unpermuted", "dims", f"{res.dims} expected {want_dims}", site + ":data-" + case["centred"])
             return fails
+        if datagen.modified(uxda, arr):
+            bad("data_swapped_unpermuted", "input-modified", "get_dual() changed the variable it was called on", site + ":data-" + case["centred"])
         if res.shape != arr.shape or not np.array_equal(np.asarray(res.values), arr):
             bad("data_swapped_unpermuted", "values", f"values changed: {np.asarray(res.values).ravel()[:6]} vs {arr.ravel()[:6]}", site + ":data-" + case["centred"])
         if res.name != "v":
